@@ -40,7 +40,7 @@ is_6531_local (const char *start, const char *end)
     int quote = 0;
     int closed = 0; /* previous character closed a quoted-string */
     int ch;
-    int prev = 0; /* previous index of non-ASCII character */
+    int prev = 0; /* byte index of the previous character */
     utf8_decode_t u;
 
 
@@ -57,8 +57,10 @@ is_6531_local (const char *start, const char *end)
         }
 
         /* skip non-ASCII characters */
-        if (ch > 0x007f)
+        if (ch > 0x007f) {
+            prev = utf8_decode_at_byte (&u);
             continue;
+        }
 
         /* rfc5321 does not allow any CTRL chars */
 #ifndef RFC6531_FOLLOW_RFC5322
